@@ -261,3 +261,92 @@ def sat_at(f, signals, times, delta=Fraction(1, 2)):
     w = {v: [stepval(s, t0 + float(k * d)) for k in range(N)] for v, s in signals.items()}
     cells = _bcells(f, w, N, scale)
     return [cells[int(math.floor(Fraction(t - t0) * scale))] for t in times]
+
+
+# ---------------------------------------------------------------------------------------------------
+# "shifted-start" variant: what the UNREPAIRED dense-time online monitor computes for a data set that starts at t0 > 0
+# (open finding site:C05-nonzero-start-bounded): a bounded past operator with begin a > 0 emits no neutral prefix, so its
+# output only starts at start(operand) + a, and every operator above it looks back only to the start of its operand's output.
+# Used to tell this documented defect apart from any other deviation.  None = undefined (before the start of the node).
+
+def _shift_rewrite(f):
+    from .formula import children, rebuild
+    op = f[0]
+    if op in ('var', 'const'):
+        return f
+    kids = [_shift_rewrite(c) for c in children(f)]
+    g = rebuild(f, kids)
+    if op == 'since' and f[1] is not None:
+        a, b = f[1]
+        return ('and', ('once', (a, b), kids[1]), ('historically', (0, a), ('since', None, kids[0], kids[1])))
+    return g
+
+
+def _scells(f, w, N, scale):
+    """(cells, start): cells[k] valid for k >= start"""
+    op = f[0]
+
+    def ib(I):
+        return int(Fraction(I[0]) * scale), int(Fraction(I[1]) * scale)
+    if op == 'var':
+        return list(w[f[1]]), 0
+    if op == 'const':
+        return [f[1]] * N, 0
+    if op in ('once', 'historically'):
+        c, s = _scells(f[2], w, N, scale)
+        agg = max if op == 'once' else min
+        if f[1] is None:
+            out = [None] * N
+            acc = None
+            for k in range(s, N):
+                acc = c[k] if acc is None else agg(acc, c[k])
+                out[k] = acc
+            return out, s
+        a, b = ib(f[1])
+        st = s + a
+        out = [None] * N
+        for k in range(st, N):
+            lo, hi = max(s, k - b), k - a
+            out[k] = agg(c[lo:hi + 1])
+        return out, st
+    if op == 'since' and f[1] is None:
+        p, sp = _scells(f[2], w, N, scale)
+        q, sq = _scells(f[3], w, N, scale)
+        st = max(sp, sq)
+        out = [None] * N
+        for k in range(st, N):
+            best = -INF
+            for j in range(st, k + 1):
+                best = max(best, min(q[j], min(p[j:k + 1])))
+            out[k] = best
+        return out, st
+    kids = [_scells(c, w, N, scale) for c in children(f)]
+    st = max([s for _, s in kids] or [0])
+    out = [None] * N
+    sub = f[:1] + tuple(('var', '_%d' % i) for i in range(len(kids))) if op not in ('pred',) else ('pred', f[1], ('var', '_0'), ('var', '_1'))
+    if op in UN_T or op in ('since', 'until', 'unless', 'eventually', 'always'):
+        raise ValueError('no shifted-start semantics for %s' % op)
+    ww = {'_%d' % i: [0 if v is None else v for v in c] for i, (c, _) in enumerate(kids)}
+    vals = _cells(sub, ww, N, scale)
+    for k in range(st, N):
+        out[k] = vals[k]
+    return out, st
+
+
+def evaluate_shifted(f, signals, times, delta=Fraction(1, 4)):
+    """values of the shifted-start variant at the given times (None where undefined); raises ValueError when the formula
+    is outside the fragment the variant describes"""
+    g = _shift_rewrite(f)
+    t0 = min(s[0][0] for s in signals.values())
+    tend = max(s[-1][0] for s in signals.values())
+    d = Fraction(delta)
+    scale = 1 / d
+    span = Fraction(tend - t0) + Fraction(total_bounds(g)) + 1
+    N = int(span * scale) + 2
+    w = {v: [stepval(s, t0 + float(k * d)) for k in range(N)] for v, s in signals.items()}
+    cells, st = _scells(g, w, N, scale)
+    out = []
+    for t in times:
+        k = int(math.floor(Fraction(t - t0) * scale))
+        out.append(cells[k] if k >= st else None)
+    return out
